@@ -25,7 +25,7 @@ EXPLANATION = (
 NOT_DECIDED = ["that the value found is the minimum over all images for every cell (numerical)", "float32 rounding at half-box distances",
                "find_closest_contact neither reduces the box nor searches images (only matters for skewed cells; numerical)"]
 ASSUMPTIONS = ["round()/roundf() return the nearest integer", "fvec4 operators are element-wise"]
-FLOORS = {"C05-R1": 20, "C05-R2": 2, "C05-R3": 1, "C05-R4": 18, "C05-R5": 44, "C05-R6": 20}
+FLOORS = {"C05-R1": 20, "C05-R2": 2, "C05-R3": 1, "C05-R4": 22, "C05-R5": 44, "C05-R6": 20}
 
 DIST = "mdtraj/geometry/distance.py"
 GEO = "mdtraj/geometry/src/geometry.cpp"
@@ -361,6 +361,14 @@ def kernels_value(ctx):
         d2 = cand[0] * cand[0] + cand[1] * cand[1] + cand[2] * cand[2]
         want = ex.opaque_call("sqrt", [d2])
         ctx.decide(dist is not None and dist == want, "C05-R4", C.line(fn), GEO, kern, "distance = |stored displacement|", "", "the distance stored is %s" % (repr(dist)[:160]))
+        # the box of frame i: every load of box_matrix sits inside the frame loop (the pointer advances once per frame)
+        floops = [n_ for n_ in C.walk(fn) if n_["kind"] == "ForStmt" and _norm(C.text(C.kids(n_)[1])) in ("(i<n_frames)", "(i<n_times)")]
+        inside = {id(x) for l_ in floops for x in C.walk(l_)}
+        loads = [n_ for n_ in C.walk(fn) if n_["kind"] == "ArraySubscriptExpr" and C.root_var(n_)[0] == "box_matrix"]
+        outside = [n_ for n_ in loads if id(n_) not in inside]
+        ctx.decide(bool(floops) and bool(loads) and not outside, "C05-R4", C.line(outside[0]) if outside else C.line(fn), GEO, kern, "the box is loaded inside the frame loop (%d loads)" % len(loads), "",
+                   "box_matrix is read at line %s, outside the frame loop: a quantity derived from the first frame's cell is used for every frame (cells that change between frames are wrapped with stale lengths)"
+                   % (C.line(outside[0]) if outside else "?"))
         if tri:
             # the image loops: generic iteration over x, y, z in {-1,0,1}; the update keeps the candidate whose squared length is not larger
             rng = {}
